@@ -248,9 +248,30 @@ def record_pack(s, d, tier, threaded):
     except Exception as e:
         err = e
     LOG.mark('pack_ret', 1)
-    st.close()
     LOG.enabled = False
-    return FSM, files0, list(LOG.ops), T, pre_view, pre_post, trace, err, ptime
+    ops = list(LOG.ops)
+    # reference outcomes of the undisturbed run: the packed state (what a pack does to a state is C07's subject; here it is
+    # the second admissible outcome), and how a later commit + second pack to the same time behaves on the packed file
+    ref = None
+    if err is None:
+        from ZODB.Connection import TransactionMetaData
+        from zv.objs import cell_record
+        from ZODB.utils import p64, z64
+        with open(path, 'rb') as fh:
+            swapped = fh.read() != bytes(files0[os.path.abspath(path)])
+        ref = {'view': view(st, maxtid, strong_refs), 'post': txn_list(st, T), 'swapped': swapped}
+        t = TransactionMetaData(b'', b'after failed pack')
+        st.tpc_begin(t)
+        st.store(p64(0x7777), z64, cell_record('x'), '', t)
+        st.tpc_vote(t)
+        st.tpc_finish(t)
+        try:
+            st.pack(ptime, referencesf)
+            ref['second'] = ('ok', view(st, maxtid, strong_refs))
+        except Exception as e:
+            ref['second'] = ('raises', type(e).__name__)
+    st.close()
+    return FSM, files0, ops, T, pre_view, pre_post, trace, err, ptime, ref
 
 
 def crash_pack_case(sh, s, d, tier, case):
@@ -261,7 +282,7 @@ def crash_pack_case(sh, s, d, tier, case):
     from ZODB.utils import maxtid, p64, z64
     hd = os.path.join(d, 'h')
     os.makedirs(hd)
-    FSM, files0, ops, T, pre_view, pre_post, trace, err, ptime = record_pack(s, hd, tier, False)
+    FSM, files0, ops, T, pre_view, pre_post, trace, err, ptime, ref = record_pack(s, hd, tier, False)
     if err is not None:
         sh.note('recorded_pack_exceptions', type(err).__name__)
         return trace
@@ -289,7 +310,7 @@ def crash_pack_case(sh, s, d, tier, case):
         try:
             v = view(fs, maxtid, strong_refs)
             post = txn_list(fs, T)
-            if v != pre_view or post != pre_post:
+            if (v, post) != (pre_view, pre_post) and (v, post) != (ref['view'], ref['post']):
                 what = 'state-after-crash-in-pack-differs-from-packed-and-unpacked'
                 if between:
                     what = 'crash-between-pack-renames:database-reopens-empty'
@@ -441,7 +462,7 @@ def fault_pack_case(sh, s, d, tier, case):
     from ZODB.utils import p64, z64
     hd = os.path.join(d, 'h')
     os.makedirs(hd)
-    FSM, files0, ops, T, pre_view, pre_post, trace, err, ptime = record_pack(s, hd, tier, False)
+    FSM, files0, ops, T, pre_view, pre_post, trace, err, ptime, ref = record_pack(s, hd, tier, False)
     if err is not None:
         return trace
     LOG = recfs.LOG
@@ -495,8 +516,15 @@ def fault_pack_case(sh, s, d, tier, case):
             # compare what must be preserved: current loads and post-T transactions (a completed swap is the packed state)
             from zv.props.c07 import view, txn_list
             from ZODB.utils import maxtid
-            if view(fs, maxtid, strong_refs) != pre_view or txn_list(fs, T) != pre_post:
+            with open(os.path.join(work, 'Data.fs'), 'rb') as fh:
+                swapped = fh.read() != bytes(files0[os.path.abspath(os.path.join(hd, 'Data.fs'))])
+            state = (view(fs, maxtid, strong_refs), txn_list(fs, T))
+            if not swapped and state != (pre_view, pre_post):
                 sh.violation('c08:fault:state-changed-by-failed-pack(%s)' % opname, wit, c2)
+            elif swapped and state != (ref['view'], ref['post']):
+                sh.violation('c08:fault:data-file-replaced-by-something-else-than-the-packed-state(%s)' % opname, wit, c2)
+            elif raised is None and swapped != ref['swapped']:
+                sh.violation('c08:fault:pack-returns-normally-without-having-packed(%s)' % opname, wit, c2)
             elif fs._commit_lock.locked():
                 sh.violation('c08:fault:commit-lock-held-after-failed-pack(%s)' % opname, wit, c2)
             elif fs._pack_is_in_progress:
@@ -509,12 +537,19 @@ def fault_pack_case(sh, s, d, tier, case):
                 fs.store(p64(0x7777), z64, cell_record('x'), '', t)
                 fs.tpc_vote(t)
                 fs.tpc_finish(t)
+                # the next pack behaves as on the undisturbed run: as its first pack when nothing was replaced, as its second
+                # (commit, pack again to the same time) when the packed file is in place
+                want = ref['second'] if swapped else ('ok', ref['view'])
                 try:
                     fs.pack(ptime, referencesf)
+                    got = ('ok', view(fs, maxtid, strong_refs))
                 except Exception as e:
-                    sh.violation('c08:fault:next-pack-raises-%s-after-failed-pack(%s)' % (type(e).__name__, opname), dict(wit, exc=repr(e)[:200]), c2)
-                if view(fs, maxtid, strong_refs) != pre_view:
-                    sh.violation('c08:fault:state-differs-after-retry-pack(%s)' % opname, wit, c2)
+                    got = ('raises', type(e).__name__)
+                    if want[0] == 'ok':
+                        sh.violation('c08:fault:next-pack-raises-%s-after-failed-pack(%s)' % (type(e).__name__, opname), dict(wit, exc=repr(e)[:200]), c2)
+                if got != want and not (got[0] == 'raises' and want[0] == 'ok'):
+                    sh.violation('c08:fault:state-differs-after-retry-pack(%s)' % opname, dict(wit, got=got[0], want=want[0]), c2)
+                sh.count('retry_packs_compared_with_undisturbed_run')
         except Exception as e:
             if opname == 'rename:pack':
                 # deciding feature: the failing op is the second rename; Data.fs was already renamed to Data.fs.old
